@@ -63,10 +63,40 @@ def explicit(tier, seed):
                     i += 1
 
 
+def undecodable_cases(tier, seed):
+    """The payload an external party delivered cannot be decoded by the configured serdes: that is an error of result(), raised every
+    time result() is called, never of create_callback(), and the code between the two runs as on the first invocation."""
+    i = 0
+    for shape in ("top", "branch", "child"):
+        for when in ("immediate", "between", "after_pendings"):
+            for between in ([{"k": "step", "val": 1}, {"k": "wait", "s": 1}, {"k": "step", "val": 2}], [{"k": "wait", "s": 1}], []):
+                for serdes, res in (("json", "plain text not json"), ("json", '{"truncated": '), ("tagged", '"no tag"'), ("ctxbound", '{"op": "other", "arn": "x", "v": 1}')):
+                    node = {"k": "cb", "between": between, "cfg": {"serdes": serdes}}
+                    body = [{"k": "step", "val": "pre"}, {"k": "try", "body": node, "catch": "*"}, {"k": "step", "val": "fallback"}, {"k": "wait", "s": 1}, {"k": "step", "val": "post"}]
+                    cpath = "1"
+                    if shape == "branch":
+                        body = [{"k": "par", "branches": [{"body": body}, {"body": [{"k": "step", "val": 1}]}], "cfg": {"preset": "all_completed"}}]
+                        cpath = "0/b0/1"
+                    elif shape == "child":
+                        body = [{"k": "child", "body": body}]
+                        cpath = "0/1"
+                    if tier == "quick" and i % 3:
+                        i += 1
+                        continue
+                    yield {"label": "undecodable-payload-%s" % shape, "prog": {"body": body}, "prog_seed": 9800 + i, "pattern": {"p": "plain"},
+                           "world": {"complete": {cpath: {"when": when, "status": "SUCCEEDED", "result": res}}}}
+                    i += 1
+
+
+def explicit_all(tier, seed):
+    yield from explicit(tier, seed)
+    yield from undecodable_cases(tier, seed)
+
+
 SPEC = Spec(
     PROP,
     level="exploration",
-    explicit=explicit,
+    explicit=explicit_all,
     gen={"kinds": ["cb", "cb", "wfcb", "invoke", "invoke", "step", "wait", "par", "child"]},
     quick={"plain": 60, "enum": 4, "rand": 12, "async": 6},
     thorough={"plain": 500, "enum": 60, "rand": 200, "async": 100, "perturb": 60},
